@@ -29,7 +29,7 @@ def main():
     r = sh(f"git apply {src}/demo.diff")
     if r.returncode: print("demo.diff does not apply", r.stderr); return 2
     r = sh(demo_cmd); res["demo_without_change"] = "pass" if r.returncode == 0 else "FAIL"
-    r = sh(f"git apply {src}/patch.diff")
+    r = sh(f"git apply {src}/patch.diff || git apply --3way {src}/patch.diff")
     if r.returncode: print("patch.diff does not apply", r.stderr); return 2
     r = sh(demo_cmd); res["demo_with_change"] = "fail" if r.returncode != 0 else "PASS"
     sh(f"git apply -R {src}/demo.diff")
